@@ -2053,7 +2053,7 @@ fn main() {
                     Some(b) => push_line(&mut final_out, &mut line_no, &format!("{}#[verus_spec({} =>", indent, b)),
                     None => push_line(&mut final_out, &mut line_no, &format!("{}#[verus_spec(", indent)),
                 }
-                for (kw, cls) in [("invariant_except_break", &lc.invariants_except_break), ("invariant", &lc.invariants), ("ensures", &lc.ensures)] {
+                for (kw, cls) in [("invariant", &lc.invariants), ("invariant_except_break", &lc.invariants_except_break), ("ensures", &lc.ensures)] {
                     if cls.is_empty() { continue; }
                     push_line(&mut final_out, &mut line_no, &format!("{}    {}", indent, kw));
                     for cl in cls {
